@@ -241,14 +241,23 @@ func tostr(v Value) (string, bool) {
 
 // rawEquals is primitive equality (no metamethods).
 func rawEquals(a, b Value) bool {
+	// an error message is a string whose text is only partly known: equal to
+	// itself, different from every non-string, undecided against other strings
 	if ea, ok := a.(*ErrStr); ok {
 		if eb, ok := b.(*ErrStr); ok && ea == eb {
 			return true
 		}
-		unspecified("comparison of an error message")
+		switch b.(type) {
+		case string, *ErrStr:
+			unspecified("comparison of an error message")
+		}
+		return false
 	}
 	if _, ok := b.(*ErrStr); ok {
-		unspecified("comparison of an error message")
+		if _, isStr := a.(string); isStr {
+			unspecified("comparison of an error message")
+		}
+		return false
 	}
 	na, oka := toNum(a)
 	nb, okb := toNum(b)
